@@ -428,7 +428,7 @@ fn worker(args: &[String]) {
         rep.notes.push("Lean driver not available: token streams not diffed".into());
     }
     dedup_violations(&mut rep);
-    rep.emit();
+    emit_ascii(&rep);
 }
 
 fn corpus_dir() -> std::path::PathBuf {
@@ -587,10 +587,29 @@ fn run_parallel(
                                 .find_map(|l| l.strip_prefix("START "))
                                 .and_then(|s| s.trim().parse::<u64>().ok())
                                 .unwrap_or(from);
-                            let (what, key) = describe_death(&w);
+                            let (mut what, mut key) = describe_death(&w);
                             local.evaluations += last - from + 1;
-                            viol(&mut local, &what, &key, input_of(last));
-                            local.hist("outcome", format!("DIED: {key}"));
+                            let input = input_of(last);
+                            // a death is only reported if the case, run alone in a fresh
+                            // worker, dies again (a loaded machine can stall a worker)
+                            let mut confirmed = true;
+                            if input["files"].is_array() {
+                                let w1 = spawn_worker(&["one".to_string(), input.to_string()], Duration::from_secs(60));
+                                if matches!(w1.ended, Ended::Ok) {
+                                    confirmed = false;
+                                    if let Some(v) = Report::parse_stdout(&w1.stdout) {
+                                        local.evaluations -= 1;
+                                        local.merge_json(&v);
+                                    }
+                                    local.hist("not-reproduced", key.clone());
+                                } else {
+                                    (what, key) = describe_death(&w1);
+                                }
+                            }
+                            if confirmed {
+                                viol(&mut local, &what, &key, input);
+                                local.hist("outcome", format!("DIED: {key}"));
+                            }
                             resume = last + 1;
                             // the cases before `last` in this worker ran fine but their
                             // histograms died with it: re-run them so counts stay exact
@@ -656,6 +675,34 @@ fn dedup_violations(rep: &mut Report) {
     }
 }
 
+/// `Report::emit`, with every non-ASCII character escaped: the inputs contain
+/// U+2028, U+0085 … which line-splitting readers treat as line ends.
+fn emit_ascii(rep: &Report) {
+    let v = json!({
+        "evaluations": rep.evaluations,
+        "distinct_nontrivial": rep.classes.len(),
+        "classes": rep.classes,
+        "impl_violations": rep.impl_violations,
+        "model_mismatches": rep.model_mismatches,
+        "samples": rep.samples,
+        "histograms": rep.histograms,
+        "notes": rep.notes,
+    });
+    let s = v.to_string();
+    let mut out = String::with_capacity(s.len() + 64);
+    for c in s.chars() {
+        if c.is_ascii() {
+            out.push(c);
+        } else {
+            let mut buf = [0u16; 2];
+            for u in c.encode_utf16(&mut buf) {
+                out.push_str(&format!("\\u{:04x}", u));
+            }
+        }
+    }
+    println!("HARNESS-REPORT {out}");
+}
+
 fn viol(rep: &mut Report, what: &str, key: &str, input: Value) {
     if rep.impl_violations.len() >= 150 {
         dedup_violations(rep);
@@ -708,7 +755,7 @@ fn main() {
                 *rep.histograms.entry("violations-by-key".into()).or_default().entry(k).or_insert(0) += n;
             }
             rep.notes.push(format!("jobs={jobs} cases={total} profile: debug-assertions={}", cfg!(debug_assertions)));
-            rep.emit();
+            emit_ascii(&rep);
         }
         Some("replay") => {
             let w = spawn_worker(&["one".to_string(), args[2].clone()], Duration::from_secs(30));
@@ -724,7 +771,7 @@ fn main() {
             for v in &rep.impl_violations {
                 println!("violation: {} [{}]", v["what"].as_str().unwrap_or(""), v["key"].as_str().unwrap_or(""));
             }
-            rep.emit();
+            emit_ascii(&rep);
         }
         _ => {
             eprintln!("usage: c06 run <seed> <quick|thorough> | c06 replay <json>");
